@@ -45,7 +45,7 @@ def run(case, ctx, rng):
         K, T, kbits = c02.material(case, rng)
         n = c02.blocklen(c)
         B = c02.block_of(case, rng, n)
-        ctx.cls((c, case.get('kl', 0), case['kp'], case.get('tp', ''), case['bp'], 'bits' if kbits else ''))
+        ctx.cls((c, case.get('kl', 0), case['kp'], case.get('tp', ''), case.get('eqp', ''), case['bp'], 'bits' if kbits else ''))
         det = dict(cipher=c, K=K, T=T, B=B, kbits=kbits)
         obj = call(c02.build, c, K, T, kbits)
         if is_exc(obj):
@@ -57,6 +57,11 @@ def run(case, ctx, rng):
         for x in (e, d):
             if not is_exc(x):
                 ctx.check('block-length', isinstance(x, bytes) and len(x) == n, len(x), n, **det)
+        # a refused call (wrong block length) must not disturb the pair
+        if not is_exc(e):
+            call(obj.dec, B + b'x'); call(obj.enc, B[:-1])
+            ctx.eq('dec(enc(B))==B', call(lambda: obj.dec(obj.enc(B))), B, after_refused_calls=True, **det)
+            ctx.eq('enc(dec(B))==B', call(lambda: obj.enc(obj.dec(B))), B, after_refused_calls=True, **det)
         # a second object with the same key inverts the first (no per-object state in the inverse)
         if not is_exc(e):
             ctx.eq('dec(enc(B))==B', call(lambda: c02.build(c, K, T, kbits).dec(e)), B, fresh_object=True, **det)
